@@ -185,12 +185,34 @@ def gen_case(rng, i):
         f["fail_after"] = rng.choice([0.0, 0.05, 0.2])
         f["fail_kind"] = rng.choice(FAIL_KINDS)
     if kind == "bad-config":
-        case["error"] = rng.choice(["syntax", "unknown-section", "unknown-tag", "ctor-error", "no-pipeline", "missing-file", "python-tag"] + sorted(EMPTY_DOCS))
+        case["error"] = rng.choice(["syntax", "unknown-section", "unknown-tag", "ctor-error", "no-pipeline", "missing-file", "python-tag",
+                                    "tag-bad-value", "tag-bad-value", "tag-no-pool", "tag-no-pool", "tag-bad-kwarg"] + sorted(EMPTY_DOCS))
         if fmt == "py":
             case["error"] = rng.choice(["syntax", "ctor-error", "missing-file", "name-error"])
+        if case["error"].startswith("tag-") and rng.random() < 0.6:
+            # nothing but tag elements and the pool: no element that would fail for want of a target
+            del elems[:]
+        if case["error"] == "tag-bad-value":
+            case["badtag"] = rng.choice(BAD_TAGS)
+        if case["error"] == "tag-no-pool":
+            case["badtag"] = rng.choice(TAGS)
+    if fmt == "yaml" and kind != "bad-ext" and rng.random() < 0.4:
+        # elements given by the shipped YAML tags (!Standardiser ...) in between: they reach the pipeline as
+        # unbound objects and are bound to their target there
+        case["tags"] = sorted(rng.sample(range(1, len(elems) + 1), rng.randint(1, min(2, len(elems))))) if elems else [0]
+        case["tagkinds"] = [rng.choice(TAGS) for _ in case["tags"]]
+    if fmt == "py" and rng.random() < 0.5:
+        case["pyextra"] = rng.choice(["dataclass", "pickle", "selfmod"])
     if kind == "bad-ext":
         case["ext"] = rng.choice([".txt", ".json", "", "", ".", ".y", ".ya", ".yam", ".ym", ".p", ".yamll", ".pyc.bak", ".YAML", ".Py", ".yaml.bak"])
     return case
+
+
+TAGS = ["!Standardiser {minimum: 0}", "!Limiter {maximum: 1000}", "!Standardiser {granularity: 1}", "!Logger {name: vh}"]
+# invalid in a way that only shows when the element is bound to its target (argument names are fine)
+BAD_TAGS = ['!Standardiser {minimum: "0", maximum: 5}', '!Limiter {maximum: "7", minimum: 1}', '!Standardiser {granularity: "2"}',
+            '!LinearController {low_utilisation: 0.5, high_allocation: 0.9, rate: "2"}',
+            '!RelativeSupplyController {low_utilisation: 0.5, high_allocation: 0.9, low_scale: "0.5"}']
 
 
 def cls_of(e):
@@ -204,6 +226,18 @@ def config_text(case):
         return EMPTY_DOCS[err]
     if case["fmt"] == "py":
         lines = ["from vh_c13mod import *"]
+        # ordinary Python in a configuration: settings kept in a dataclass (with postponed annotations the
+        # dataclass machinery looks the configuration module up by name), a class that is pickled, a
+        # module-level lookup of the configuration's own module
+        extra = case.get("pyextra")
+        if extra == "dataclass":
+            lines = ["from __future__ import annotations", "import dataclasses, typing"] + lines + [
+                "@dataclasses.dataclass", "class Settings:", "    rate: int = 2", "    names: typing.ClassVar[list] = []", "settings = Settings()"]
+        elif extra == "pickle":
+            lines += ["import pickle", "class Site:", "    def __init__(self, n): self.n = n",
+                      "assert pickle.loads(pickle.dumps(Site(3))).n == 3"]
+        elif extra == "selfmod":
+            lines += ["import sys", "this = sys.modules[__name__]", "this.marker = 1", "assert marker == 1"]
         chain = " >> ".join(["%s.s(name=%r%s)" % (cls_of(e), e["name"], (", fail_after=%r, fail_kind=%r" % (e["fail_after"], e.get("fail_kind", "ValueError"))) if "fail_after" in e else "") for e in elems]
                             + ["BasePool%s(name='pool')" % ("Falsy" if case.get("falsy_pool") else "")])
         if err == "ctor-error":
@@ -223,7 +257,12 @@ def config_text(case):
         lines += ["no_such_section:", "  a: 1"]
     if err != "no-pipeline":
         lines.append("pipeline:")
-        for e in elems:
+        if err == "tag-bad-value" and case.get("badtag", "").startswith(("!Linear", "!Relative")):
+            lines.append("  - " + case["badtag"])
+        for j, e in enumerate(elems):
+            for t, tk in zip(case.get("tags", []), case.get("tagkinds", [])):
+                if t == j:
+                    lines.append("  - " + tk)
             lines.append("  - __type__: vh_c13mod.%s" % cls_of(e))
             lines.append("    name: %s" % e["name"])
             if "fail_after" in e:
@@ -237,7 +276,17 @@ def config_text(case):
             lines.append("  - !!python/object/apply:os.getcwd []")
         if err == "ctor-error":
             lines.append("  - __type__: vh_c13mod.boom")
-        lines.append("  - __type__: vh_c13mod.BasePool%s" % ("Falsy" if case.get("falsy_pool") else ""))
+        for t, tk in zip(case.get("tags", []), case.get("tagkinds", [])):
+            if t == len(elems):
+                lines.append("  - " + tk)
+        if err == "tag-bad-value" and not case.get("badtag", "").startswith(("!Linear", "!Relative")):
+            lines.append("  - " + case["badtag"])
+        if err == "tag-bad-kwarg":
+            lines.append("  - !Standardiser {minimun: 0}")
+        if err == "tag-no-pool":
+            lines.append("  - " + case.get("badtag", TAGS[0]))     # the pipeline forgets its pool
+        else:
+            lines.append("  - __type__: vh_c13mod.BasePool%s" % ("Falsy" if case.get("falsy_pool") else ""))
     else:
         lines.append("__config_test: {}")
     if err == "syntax":
